@@ -121,7 +121,7 @@ func (l *scionLive) configure(cfg exchCfg, f *recFilter) {
 func (l *scionLive) getPrev() client.VerifC03Prev  { return client.VerifC03PrevSCION(l.c) }
 func (l *scionLive) setPrev(p client.VerifC03Prev) { client.VerifC03SetPrevSCION(l.c, p) }
 func (l *scionLive) measure(ctx context.Context) (time.Time, time.Duration, error) {
-	la := udp.UDPAddr{IA: localIA, Host: &net.UDPAddr{IP: scionLocalIP()}}
+	la := udp.UDPAddr{IA: localIA, Host: &net.UDPAddr{IP: scionLocalIP(), Zone: liveZone}}
 	ra := scionRemote()
 	var path snet.Path = spath.Path{Src: localIA, Dst: remoteIA, DataplanePath: spath.Empty{},
 		NextHop: net.UDPAddrFromAddrPort(thePeer.addr)}
@@ -209,6 +209,8 @@ type scionVariant struct {
 	auth           *authSpec // E2E extension with a packet authenticator option (gen_auth.go)
 	rawPathType    byte      // != 0: path type field of the common header overwritten after serialisation (empty path of an unregistered type)
 	srcRaw, dstRaw *rawHost  // != nil: address type field and raw bytes of the source / destination host instead of srcIP / dstIP
+	rawNextHdr     byte      // != 0: next-header field of the common header overwritten after serialisation (an L4 protocol the client's parser does not know)
+	padTo          int       // > 0: the datagram is padded with zero bytes to this length after serialisation (longer than the client's buffer: MSG_TRUNC)
 	tsAuto         bool      // e2eTs lies near the request's transmit time: whether the client is expected to use it is decided after the exchange, when the kernel transmit time is known
 }
 
@@ -306,6 +308,12 @@ func buildSCION(v scionVariant, srcPort, dstPort uint16, payload []byte) (d dgra
 		if v.rawPathType != 0 {
 			d.wire[8] = v.rawPathType
 		}
+		if v.rawNextHdr != 0 {
+			d.wire[4] = v.rawNextHdr
+		}
+		if v.padTo > len(d.wire) {
+			d.wire = append(d.wire, make([]byte, v.padTo-len(d.wire))...)
+		}
 		if v.udpLenDelta != 0 && !v.scmp {
 			off := len(d.wire) - len(payload) - 8 + 4
 			binary.BigEndian.PutUint16(d.wire[off:], uint16(int(binary.BigEndian.Uint16(d.wire[off:]))+v.udpLenDelta))
@@ -314,6 +322,16 @@ func buildSCION(v scionVariant, srcPort, dstPort uint16, payload []byte) (d dgra
 			d.wire = d.wire[:len(d.wire)-v.truncate]
 		}
 	}
+	finishSCION(&d, v)
+	return
+}
+
+// finishSCION derives, from the bytes of d.wire, the facts the model needs (with the client's own
+// parser configuration) and the harness's own verdicts for the oracles. v: the variant the packet
+// was built from (only its timestamp-option expectations are read).
+func finishSCION(dp *dgram, v scionVariant) {
+	d := *dp
+	defer func() { *dp = d }()
 	// facts, by the client's parser configuration
 	p := parseSCION(d.wire)
 	layers := ""
